@@ -32,7 +32,7 @@ namespace
 
 void emit(const std::string &oracle, const std::string &expected, const std::string &req)
 {
-  std::cout << oracle << '|' << expected << '|' << req << '\n';
+  std::cout << oracle << '|' << expected << '|' << req << std::endl;   // flushed: an abort leaves no partial line
 }
 
 template<class T> struct prob_for;
@@ -415,7 +415,7 @@ int main(int argc, char *argv[])
     if (WIFEXITED(status) && WEXITSTATUS(status) == 0)
       std::cout << "# case " << idx << " end" << std::endl;
     else
-      std::cout << "# case " << idx << " died "
+      std::cout << "\n# case " << idx << " died "
                 << (WIFEXITED(status) ? WEXITSTATUS(status) : 128 + WTERMSIG(status)) << std::endl;
     ++idx;
   }
